@@ -1,4 +1,205 @@
-(* Executable interface of the Codegen layer (op codes 3400..3499). Stub until the layer is built. *)
-From A1 Require Import Base.Res.
+(* Executable interface of the Codegen layer (op codes 3400..3499).
+   3410 kind <char code>...  ->  0 <char code>...     the name mangling functions of Front/Codegen.v
+        kind 0 rust_field_name          1 rust_variant_name      2 rust_struct_or_enum_name
+             3 rust_module_name(_,false) 4 rust_constant_name
+             5 RustCodeGenerator::rust_field_name(_, true)       6 RustCodeGenerator::rust_variant_name
+             7 RustCodeGenerator::rust_module_name
+             8 emitted field name (5 after 0)                    9 emitted variant name (6 after 1)
+        a char code outside ASCII is out of model: answer -3 (the generators stay ASCII)
+   3411 <char code>...       ->  0 ident keyword     is_rust_ident / is_keyword as 0/1 (tied to proc_macro2's lexer and syn's
+                                                   keyword table by the harness)
+   3401..3403 are implementation-only ops (see harness/a1h/src/codegen.rs): unknown here. *)
+From A1 Require Import Base.Res Front.Codegen.
 Local Open Scope Z_scope.
-Definition run_codegen (m : mode) (op : Z) (a : list Z) : list Z := [-1].
+
+Definition ascii_codes (a : list Z) : option (list N) :=
+  if forallb (fun c => (0 <=? c) && (c <? 128)) a then Some (map Z.to_N a) else None.
+
+Definition ok_str (s : list N) : list Z := 0 :: map Z.of_N s.
+Definition b2z (b : bool) : Z := if b then 1 else 0.
+
+Definition run_mangle (m : mode) (op : Z) (a : list Z) : list Z :=
+  if op =? 3410 then
+    match a with
+    | [] => [-2]
+    | kind :: cs =>
+      match ascii_codes cs with
+      | None => if forallb (fun c => (0 <=? c) && (c <? 1114112) && negb ((55296 <=? c) && (c <? 57344))) cs then [-3] else [-2]
+      | Some s =>
+        if kind =? 0 then ok_str (rust_field_name s)
+        else if kind =? 1 then ok_str (rust_variant_name s)
+        else if kind =? 2 then ok_str (rust_struct_or_enum_name s)
+        else if kind =? 3 then ok_str (rust_module_name s false)
+        else if kind =? 4 then ok_str (rust_constant_name s)
+        else if kind =? 5 then ok_str (gen_field_name s true)
+        else if kind =? 6 then ok_str (gen_variant_name s)
+        else if kind =? 7 then ok_str (gen_module_name s)
+        else if kind =? 8 then ok_str (emit_field s)
+        else if kind =? 9 then ok_str (emit_variant s)
+        else [-1]
+      end
+    end
+  else if op =? 3411 then
+    match ascii_codes a with
+    | None => [-3]
+    | Some s => [0; b2z (is_rust_ident s); b2z (is_keyword s)]
+    end
+  else [-1].
+
+(* ------------------------------------------------------------------ op 3412: the attribute type sub-language
+   3412 <aty>  ->  0 <token dump of print_ty t>  <0 <aty of parse_attr_type (print_ty t)> | 1>
+   aty  : 0 | 1 | 2 hasmin min hasmax max ext | 3 size cs | 4 size | 5 size | 6 aty | 7 aty lit | 8 size aty | 9 size aty
+          | 10 str hastag [class number]            (bool, null, integer, string, octets, bits, optional, default,
+                                                     sequence_of, set_of, complex)
+   size : 0 | 1 n ext | 2 a b ext        lit : 0 b | 1 str | 2 z | 3 n byte*n | 4 str str       str : len code*len
+   token: 1 str (ident) | 2 n (integer literal) | 3 c (punct) | 5 str (string literal) | 4 k tok*k ( ) | 6 k tok*k [ ]
+   malformed input -> -2 *)
+From A1 Require Import Front.Attr.
+
+Definition dec (A : Type) := list Z -> option (A * list Z).
+
+Definition d_nat_list (n : Z) (a : list Z) : option (list Z * list Z) :=
+  if (n <? 0) || (Z.of_nat (length a) <? n) then None else Some (firstn (Z.to_nat n) a, skipn (Z.to_nat n) a).
+
+Definition d_str : dec (list N) := fun a =>
+  match a with
+  | n :: r => match d_nat_list n r with
+              | Some (cs, r') => if forallb (fun c => (0 <=? c) && (c <? 128)) cs then Some (map Z.to_N cs, r') else None
+              | None => None
+              end
+  | [] => None
+  end.
+
+Definition d_bool (z : Z) : option bool := if z =? 0 then Some false else if z =? 1 then Some true else None.
+
+Definition d_size : dec size := fun a =>
+  match a with
+  | 0 :: r => Some (SAny, r)
+  | 1 :: n :: e :: r => match d_bool e with Some e' => if n <? 0 then None else Some (SFix (Z.to_N n) e', r) | None => None end
+  | 2 :: x :: y :: e :: r => match d_bool e with Some e' => if (x <? 0) || (y <? 0) then None else Some (SRange (Z.to_N x) (Z.to_N y) e', r) | None => None end
+  | _ => None
+  end.
+
+Definition d_charset (z : Z) : option charset :=
+  if z =? 0 then Some Utf8 else if z =? 1 then Some Numeric else if z =? 2 then Some Printable
+  else if z =? 3 then Some Ia5 else if z =? 4 then Some Visible else None.
+
+Definition d_lit : dec lit := fun a =>
+  match a with
+  | 0 :: b :: r => option_map (fun b' => (LBool b', r)) (d_bool b)
+  | 1 :: r => option_map (fun '(s, r') => (LStr s, r')) (d_str r)
+  | 2 :: z :: r => Some (LInt z, r)
+  | 3 :: n :: r => match d_nat_list n r with
+                   | Some (bs, r') => if forallb (fun c => (0 <=? c) && (c <? 256)) bs then Some (LOct (map Z.to_N bs), r') else None
+                   | None => None
+                   end
+  | 4 :: r => match d_str r with
+              | Some (t, r') => option_map (fun '(v, r'') => (LEnum t v, r'')) (d_str r')
+              | None => None
+              end
+  | _ => None
+  end.
+
+Definition d_tag (c n : Z) : option tag :=
+  if n <? 0 then None
+  else if c =? 0 then Some (TUniversal (Z.to_N n)) else if c =? 1 then Some (TApplication (Z.to_N n))
+  else if c =? 2 then Some (TContext (Z.to_N n)) else if c =? 3 then Some (TPrivate (Z.to_N n)) else None.
+
+Fixpoint d_aty (fuel : nat) : dec aty := fun a =>
+  match fuel with
+  | O => None
+  | S f =>
+    match a with
+    | 0 :: r => Some (ABool, r)
+    | 1 :: r => Some (ANull, r)
+    | 2 :: hmin :: mn :: hmax :: mx :: e :: r =>
+      match d_bool hmin, d_bool hmax, d_bool e with
+      | Some h1, Some h2, Some e' => Some (AInt (if h1 then Some mn else None) (if h2 then Some mx else None) e', r)
+      | _, _, _ => None
+      end
+    | 3 :: r => match d_size r with
+                | Some (sz, cs :: r') => option_map (fun c => (AStr sz c, r')) (d_charset cs)
+                | _ => None
+                end
+    | 4 :: r => option_map (fun '(sz, r') => (AOct sz, r')) (d_size r)
+    | 5 :: r => option_map (fun '(sz, r') => (ABits sz, r')) (d_size r)
+    | 6 :: r => option_map (fun '(t, r') => (AOpt t, r')) (d_aty f r)
+    | 7 :: r => match d_aty f r with
+                | Some (t, r') => option_map (fun '(l, r'') => (ADef t l, r'')) (d_lit r')
+                | None => None
+                end
+    | 8 :: r => match d_size r with
+                | Some (sz, r') => option_map (fun '(t, r'') => (ASeqOf t sz, r'')) (d_aty f r')
+                | None => None
+                end
+    | 9 :: r => match d_size r with
+                | Some (sz, r') => option_map (fun '(t, r'') => (ASetOf t sz, r'')) (d_aty f r')
+                | None => None
+                end
+    | 10 :: r => match d_str r with
+                 | Some (name, 0 :: r') => Some (ARef name None, r')
+                 | Some (name, 1 :: c :: n :: r') => option_map (fun g => (ARef name (Some g), r')) (d_tag c n)
+                 | _ => None
+                 end
+    | _ => None
+    end
+  end.
+
+Definition e_str (s : list N) : list Z := Z.of_nat (length s) :: map Z.of_N s.
+Definition e_size (sz : size) : list Z :=
+  match sz with SAny => [0] | SFix n e => [1; Z.of_N n; b2z e] | SRange x y e => [2; Z.of_N x; Z.of_N y; b2z e] end.
+Definition e_charset (c : charset) : Z := match c with Utf8 => 0 | Numeric => 1 | Printable => 2 | Ia5 => 3 | Visible => 4 end.
+Definition e_lit (l : lit) : list Z :=
+  match l with
+  | LBool b => [0; b2z b] | LStr s => 1 :: e_str s | LInt z => [2; z]
+  | LOct bs => 3 :: Z.of_nat (length bs) :: map Z.of_N bs
+  | LEnum t v => 4 :: e_str t ++ e_str v
+  end.
+Definition e_opt (o : option Z) : list Z := match o with Some z => [1; z] | None => [0; 0] end.
+Fixpoint e_aty (t : aty) : list Z :=
+  match t with
+  | ABool => [0] | ANull => [1]
+  | AInt mn mx e => 2 :: e_opt mn ++ e_opt mx ++ [b2z e]
+  | AStr sz cs => 3 :: e_size sz ++ [e_charset cs]
+  | AOct sz => 4 :: e_size sz
+  | ABits sz => 5 :: e_size sz
+  | AOpt t' => 6 :: e_aty t'
+  | ADef t' l => 7 :: e_aty t' ++ e_lit l
+  | ASeqOf t' sz => 8 :: e_size sz ++ e_aty t'
+  | ASetOf t' sz => 9 :: e_size sz ++ e_aty t'
+  | ARef name tg => 10 :: e_str name ++ match tg with
+                                        | None => [0]
+                                        | Some (TUniversal n) => [1; 0; Z.of_N n] | Some (TApplication n) => [1; 1; Z.of_N n]
+                                        | Some (TContext n) => [1; 2; Z.of_N n] | Some (TPrivate n) => [1; 3; Z.of_N n]
+                                        end
+  end.
+
+(* token trees are nested through lists: dump with explicit fuel (the printer's output is shallow: depth <= 2 * depth t + 4) *)
+Fixpoint e_toks (fuel : nat) (ts : list tok) : list Z :=
+  match fuel with
+  | O => [-9]
+  | S f =>
+    flat_map (fun t => match t with
+                       | TIdent s => 1 :: e_str s
+                       | TNum n => [2; Z.of_N n]
+                       | TPunct c => [3; Z.of_N c]
+                       | TStr s => 5 :: e_str s
+                       | TParen l => 4 :: Z.of_nat (length l) :: e_toks f l
+                       | TBracket l => 6 :: Z.of_nat (length l) :: e_toks f l
+                       end) ts
+  end.
+
+Definition run_attr (a : list Z) : list Z :=
+  match d_aty (S (length a)) a with
+  | Some (t, []) =>
+    let toks := print_ty t in
+    0 :: Z.of_nat (length toks) :: e_toks (2 * depth t + 6) toks ++
+      match parse_attr_type (S (depth t)) toks with
+      | Ok t' => 0 :: e_aty t'
+      | _ => [1]
+      end
+  | _ => [-2]
+  end.
+
+Definition run_codegen (m : mode) (op : Z) (a : list Z) : list Z :=
+  if op =? 3412 then run_attr a else run_mangle m op a.
